@@ -36,7 +36,23 @@ RULE = ("Hypothesis-drawn stacks of 1-6 layers (index in [1,4] and, for the stac
         "polarisation through every calling convention; the per-element loop is run on a sample of elements (both ends, both sides of every "
         "multiple of 2**15, a strided sweep of 24 with a drawn offset; about 35 elements) and R + T (admittance factor of the exit medium, "
         "harness arithmetic) is checked on EVERY element: == 1 for lossless maps, <= 1 for absorbing ones; non-trivial there = not a multiple of "
-        "2**15 and (immersed or oblique).")
+        "2**15 and (immersed or oblique).  "
+        "Round-8 hardening, clauses frustrated_tir / frustrated_tir_batch: an immersed stack (ambient index 1.05-4) at an angle for which the "
+        "transverse index s = n0 sin(aoi) = 1 + g (n0 - 1), g in [0.02, 0.9999], lies between 1 and n0.  Every film layer is drawn as "
+        "evanescent (index 1 + u (s - 1) 0.999, u = 0 being an air gap; thickness from a drawn decay exponent x in [0, 12]: "
+        "d = x lambda / (2 pi sqrt(s^2 - n^2)), exactly 0 included) or propagating (index s (1.002 + 2u), possibly rarer than the ambient; "
+        "0-2 vacuum wavelengths thick); 0-5 films, also periodic; the exit medium always propagates, so the angle is below total internal "
+        "reflection for the stack and light tunnels through (frustrated TIR).  Asserted: R + T = 1 with the admittance factor of the exit "
+        "medium only; a zero-thickness layer of an evanescent or a propagating index inserted in front of any layer (also into a stack that "
+        "has no evanescent layer) changes neither r nor t; a half-wave layer of a propagating index leaves R and T unchanged; the batched map "
+        "(elements with and without evanescent layers side by side, thickness zeros, air gaps, also > 2**15 elements) equals the loop element "
+        "by element (t on its own scale) and conserves energy on every element.  Non-trivial there = an evanescent layer of non-zero thickness "
+        "or an inserted evanescent layer / an element that holds one.  Not asserted: absolute values of r, t of multilayers (the property "
+        "states none), and stacks whose exit medium is evanescent (true TIR, outside the property).  Other additions: history 'raise-first' "
+        "(unknown polarisation and a ragged stack requested and caught before the checked call); ambient index next to 1 (1 + 1e-12 .. 1.0003); "
+        "the degrees switches of brewsters_angle / critical_angle / snell_aor given as numpy.True_/False_ and 1/0; batched pairs forms in "
+        "which two layers share ONE ndarray object as index map / thickness map / both, or a layer's index map object is also its thickness "
+        "map ('equal' = same values, separate objects).")
 ASSUMPTIONS = ["the last entry of a stack is the exit medium (its own thickness only adds a phase to t), as in the code and its tests",
                "an absorbing index is written n + i*kappa (the sign used by tests/test_thinfilm.py); absorbing layers are interior only",
                "numpy trigonometric functions are correct to a few ulp",
@@ -49,7 +65,7 @@ FORMS = ['list', 'list', 'lists', 'tuple', 'array', 'array', 'array-F', 'array-s
 NUMS = ['float', 'float', 'float', 'int', 'int', 'mixed', 'f32', 'intarray32']
 WEXP = [0, 0, 0, 0, -6, -3, 3, 6, -100, 100]
 DMUL = [1, 1, 1, 1, 100, 10000]
-PRE = ['none', 'none', 'other-n0', 'other-pol', 'other-wvl', 'batched-first', 'normal-first']
+PRE = ['none', 'none', 'other-n0', 'other-pol', 'other-wvl', 'batched-first', 'normal-first', 'raise-first']
 
 
 def _f():
@@ -67,6 +83,11 @@ def _index():
 
 def _index_wide():
     return st.one_of(_index(), _index(), _index(), U.nice_float(1.0, 30.0), U.nice_float(1.0, 1000.0), st.sampled_from([1.0, 2.0, 3.0]))
+
+
+def _n0():
+    """ambient index: exactly 1 (the default), next to 1 (relative 1e-12 .. 1e-4 above it: not the vacuum special case), 1 .. 2.5"""
+    return st.one_of(st.just(1.0), U.nice_float(1.0, 2.5), U.nice_float(1.0, 2.5), U.nice_float(1.0, 2.5), st.sampled_from([1.0 + 1e-12, 1.0 + 1e-9, 1.000001, 1.0001, 1.000293]))
 
 
 def _thick():
@@ -248,6 +269,23 @@ def _prior(ctx, pre, stack, wvl, pol, aoi, n0):
         a = np.asarray(stack)
         if a.ndim == 2:
             ctx.call(thinfilm.multilayer_stack_rt, np.stack([a, a], axis=-1), wvl, pol, aoi, n0)
+    elif pre == 'raise-first':
+        _failing_call(ctx, stack, wvl, aoi, n0)
+
+
+def _failing_call(ctx, stack, wvl, aoi, n0):
+    """requests that are documented to fail (unknown polarisation -> ValueError) or fail in numpy (a ragged stack), caught by the caller;
+    nothing is asserted about them - the valid request that follows must behave as if they had never been made"""
+    from prysm import thinfilm
+    for bad in ('x', 'sp'):
+        try:
+            thinfilm.multilayer_stack_rt(stack, wvl, bad, aoi, n0)
+        except Exception:  # noqa - the failing request itself is not judged
+            pass
+    try:
+        thinfilm.multilayer_stack_rt([(1.5,)], wvl, 's', aoi, n0)
+    except Exception:  # noqa
+        pass
 
 
 def _twice(ctx, stack, wvl, pol, aoi, n0, argt, what):
@@ -265,7 +303,7 @@ def _twice(ctx, stack, wvl, pol, aoi, n0, argt, what):
 # ---- energy conservation -------------------------------------------------------------------------
 def strat_energy(tier):
     return st.fixed_dictionaries({
-        'layers': _layers(1, 6, _index_wide), 'wvl': U.nice_float(0.3, 2.0), 'n0': st.one_of(st.just(1.0), U.nice_float(1.0, 2.5)),
+        'layers': _layers(1, 6, _index_wide), 'wvl': U.nice_float(0.3, 2.0), 'n0': _n0(),
         'f': _f_wide(), 'pol': POL, 'form': st.sampled_from(FORMS), 'num': st.sampled_from(NUMS),
         'kappa': st.one_of(st.just([]), st.just([]), st.lists(st.one_of(st.just(0.0), U.nice_float(0.0, 1.5)), min_size=1, max_size=5)),
         'wexp': st.sampled_from(WEXP), 'dmul': st.sampled_from(DMUL), 'argt': ARGT, 'pre': st.sampled_from(PRE), 'metal': _metals(), 'periodic': _periodic_spec(),
@@ -333,7 +371,7 @@ def check_energy(case, ctx):
     ctx.nt(f > 0.02 and any(d > 0 for n, d in layers[:-1]))
     allint = np.asarray(stack).dtype.kind in 'iu'
     ctx.label('L=%d' % L, 'pol:' + pol, 'absorbing' if absorbing else 'lossless', 'form:' + form, 'num:' + num,
-              'normal' if f == 0 else ('grazing>0.995' if f > FMAX else ('oblique>0.9' if f > 0.9 else 'oblique')), 'n0=1' if n0 == 1 else 'n0>1',
+              'normal' if f == 0 else ('grazing>0.995' if f > FMAX else ('oblique>0.9' if f > 0.9 else 'oblique')), 'n0=1' if n0 == 1 else ('n0 next to 1' if n0 < 1.001 else 'n0>1'),
               'dtype:%s' % np.asarray(stack).dtype, 'all-int-oblique' if allint and f > 0.02 else 'not-all-int-oblique',
               'wexp:%s' % ('0' if wexp == 0 else 'extreme'), 'thick' if dmul > 1 else 'thin',
               'n>30' if max(lossless_n) > 30 else 'n<=30', 'pre:' + pre, 'call:' + argt['call'],
@@ -364,7 +402,8 @@ def strat_fresnel(tier):
         'n0': st.one_of(st.just(1.0), U.nice_float(1.0, 4.0), U.nice_float(1.3, 4.0)), 'n1': _index(), 'f': _f_wide(), 'd': _thick(),
         'wvl': U.nice_float(0.3, 2.0), 'ints': st.sampled_from([False, False, True]), 'form': st.sampled_from(FORMS), 'argt': ARGT,
         'wexp': st.sampled_from(WEXP),
-        'unit_kw': st.sampled_from(['positional', 'keyword', 'keyword'])})      # how the degrees / radians switch of the angle helpers is passed
+        'unit_kw': st.sampled_from(['positional', 'keyword', 'keyword']),      # how the degrees / radians switch of the angle helpers is passed
+        'flag': st.sampled_from(['bool', 'bool', 'np', 'int'])})             # ... and as what: True / False, numpy.True_ / numpy.False_, 1 / 0
 
 
 def check_fresnel(case, ctx):
@@ -424,9 +463,11 @@ def check_fresnel(case, ctx):
                     '%s d=%r wvl=%r: one-layer stack %r |t_%s|=%.17g, |fresnel_t%s|=%.17g' % (desc, d, wvl, one, p, abs(t), p, abs(fr['t' + p])))
     # Brewster
     ukw = case.get('unit_kw', 'positional') == 'keyword'
-    ctx.label('unit-switch:' + ('keyword' if ukw else 'positional'))
-    thb = float(ctx.call(tf.brewsters_angle, n0, n1, deg=False)) if ukw else float(ctx.call(tf.brewsters_angle, n0, n1, False))
-    thb_deg = float(ctx.call(tf.brewsters_angle, n0, n1, deg=True)) if ukw else float(ctx.call(tf.brewsters_angle, n0, n1))
+    flag = case.get('flag', 'bool')
+    yes, no = {'bool': (True, False), 'np': (np.True_, np.False_), 'int': (1, 0)}[flag]     # the switches are documented as bool; any truthy / falsy value is accepted
+    ctx.label('unit-switch:' + ('keyword' if ukw else 'positional'), 'unit-switch given as:' + flag)
+    thb = float(ctx.call(tf.brewsters_angle, n0, n1, deg=no)) if ukw else float(ctx.call(tf.brewsters_angle, n0, n1, no))
+    thb_deg = float(ctx.call(tf.brewsters_angle, n0, n1, deg=yes)) if ukw else float(ctx.call(tf.brewsters_angle, n0, n1) if flag == 'bool' else ctx.call(tf.brewsters_angle, n0, n1, yes))
     ctx.require(abs(math.tan(thb) - n1 / n0) <= 1e-12 * (n1 / n0) and abs(math.radians(thb_deg) - thb) <= 1e-14,
                 'brewsters_angle', 'n0=%r n1=%r: %r rad / %r deg, tan should be n1/n0' % (n0, n1, thb, thb_deg))
     th1b = math.asin(n0 * math.sin(thb) / n1)   # always below the critical angle
@@ -439,28 +480,29 @@ def check_fresnel(case, ctx):
         ctx.require(abs(rsb) > 1e-6 * abs(n0 - n1), 'fresnel_rs:brewster', 's light must still be reflected at the Brewster angle, got %r' % rsb)
     # Snell
     for deg in (True, False):
+        dflag = yes if deg else no
         if ukw:
-            a = ctx.call(tf.snell_aor, n0, n1, math.degrees(th0) if deg else th0, degrees=deg)
+            a = ctx.call(tf.snell_aor, n0, n1, math.degrees(th0) if deg else th0, degrees=dflag)
         else:
-            a = ctx.call(tf.snell_aor, n0, n1, math.degrees(th0) if deg else th0, deg)
+            a = ctx.call(tf.snell_aor, n0, n1, math.degrees(th0) if deg else th0, dflag)
         a = _scalar(ctx, a, 'snell_aor:nonfinite', 'snell_aor')
         ctx.require(abs(n1 * np.sin(a) - n0 * math.sin(th0)) <= 1e-12 * n0, 'snell_aor',
                     '%s degrees=%s: n1 sin(th1)=%r, n0 sin(th0)=%r' % (desc, deg, n1 * np.sin(a), n0 * math.sin(th0)))
     # critical angle: going from the denser medium into the rarer one at that angle refracts to 90 deg
     lo, hi = min(n0, n1), max(n0, n1)
     if lo < hi:
-        thc = float(ctx.call(tf.critical_angle, lo, hi, deg=False)) if ukw else float(ctx.call(tf.critical_angle, lo, hi, False))
-        thc_deg = float(ctx.call(tf.critical_angle, lo, hi, deg=True)) if ukw else float(ctx.call(tf.critical_angle, lo, hi))
+        thc = float(ctx.call(tf.critical_angle, lo, hi, deg=no)) if ukw else float(ctx.call(tf.critical_angle, lo, hi, no))
+        thc_deg = float(ctx.call(tf.critical_angle, lo, hi, deg=yes)) if ukw else float(ctx.call(tf.critical_angle, lo, hi) if flag == 'bool' else ctx.call(tf.critical_angle, lo, hi, yes))
         ctx.require(abs(math.sin(thc) - lo / hi) <= 1e-12 and abs(math.radians(thc_deg) - thc) <= 1e-14, 'critical_angle',
                     'critical_angle(%r, %r) = %r rad / %r deg; sin should be %r' % (lo, hi, thc, thc_deg, lo / hi))
-        out = _scalar(ctx, ctx.call(tf.snell_aor, hi, lo, thc, False), 'snell_aor:nonfinite', 'snell_aor')
+        out = _scalar(ctx, ctx.call(tf.snell_aor, hi, lo, thc, no), 'snell_aor:nonfinite', 'snell_aor')
         ctx.require(abs(np.sin(out) - 1) <= 1e-12, 'critical_angle:refracts-to-90', 'sin(th1) at the critical angle = %r' % np.sin(out))
 
 
 # ---- zero-thickness and absentee layers ----------------------------------------------------------
 def strat_absentee(tier):
     return st.fixed_dictionaries({
-        'layers': _layers(1, 5, _index_wide), 'wvl': U.nice_float(0.3, 2.0), 'n0': st.one_of(st.just(1.0), U.nice_float(1.0, 2.5)),
+        'layers': _layers(1, 5, _index_wide), 'wvl': U.nice_float(0.3, 2.0), 'n0': _n0(),
         'f': _f_wide(), 'pol': POL, 'n_new': _index_wide(), 'pos': st.one_of(st.integers(0, 4), st.integers(0, 20)), 'periodic': _periodic_spec(), 'm': st.sampled_from([1, 2, 3, 1, 2, 3, 50, 1000]),
         'form': st.sampled_from(FORMS), 'num': st.sampled_from(['float', 'float', 'int', 'mixed']), 'wexp': st.sampled_from(WEXP),
         'argt': ARGT, 'pre': st.sampled_from(PRE)})
@@ -541,7 +583,10 @@ def strat_batch(tier):
         'special': st.sampled_from(SPECIALS), 'form': st.sampled_from(BFORMS), 'num': st.sampled_from(BNUMS), 'wexp': st.sampled_from(WEXP),
         'argt': ARGT, 'order': st.sampled_from(['batch-first', 'batch-first', 'loop-first']), 'metal': st.booleans(),
         # periodic films: every batch element periodic, or (detune) all but one element detuned in one layer so that the batch as a whole is not
-        'periodic': _periodic_spec(), 'detune': st.booleans()})
+        'periodic': _periodic_spec(), 'detune': st.booleans(),
+        # pairs forms: two consecutive layers given the SAME ndarray object as index map / thickness map / both, or one layer whose index map object
+        # is also its thickness map (equal values: d = n um); 'equal' = the same values as separate objects (the control)
+        'share': st.sampled_from(['none', 'index-maps', 'index-maps', 'thickness-maps', 'both-maps', 'index-is-thickness', 'index-is-thickness', 'equal'])})
 
 
 def _batch_maps(case):
@@ -623,12 +668,31 @@ def check_batch(case, ctx):
             dm = rng.uniform(0, 0.3, (L,) + B) * (10.0 ** wexp if wexp else 1.0)
             n = np.where(mm, nm, n)
             d = np.where(mm & (d != 0), dm, d)
+    share = case.get('share', 'none')
+    if share == 'index-is-thickness' and wexp:
+        share = 'none'        # the thickness must stay a few wavelengths
+    if share != 'none' and L > 1 and not cplx:
+        ks = int(U.rng_of(case['seed'], 29).integers(0, L - 1))
+        if share in ('index-maps', 'both-maps', 'equal'):
+            n[ks + 1] = n[ks]
+        if share in ('thickness-maps', 'both-maps', 'equal'):
+            d[ks + 1] = d[ks]
+        if share == 'index-is-thickness':
+            d[ks] = n[ks]         # a film 1 - 4 um thick (float32 / integer maps: the same numbers in the same type)
+    else:
+        share = 'none'
     if form.startswith('array'):
         stack = U.relayout(np.stack([n, d.astype(n.dtype) if cplx else d], axis=1), {'array': 'C', 'array-F': 'F', 'array-strided': 'strided'}[form])   # (L, 2, *B)
-    elif form == 'pairs-lists':
-        stack = [[n[k].copy(), (d[k].astype(n.dtype) if cplx else d[k]).copy()] for k in range(L)]
     else:
-        stack = tuple((n[k].copy(), (d[k].astype(n.dtype) if cplx else d[k]).copy()) for k in range(L))
+        pairs = [[n[k].copy(), (d[k].astype(n.dtype) if cplx else d[k]).copy()] for k in range(L)]
+        if share in ('index-maps', 'both-maps'):
+            pairs[ks + 1][0] = pairs[ks][0]
+        if share in ('thickness-maps', 'both-maps'):
+            pairs[ks + 1][1] = pairs[ks][1]
+        if share == 'index-is-thickness' and pairs[ks][0].dtype == pairs[ks][1].dtype:
+            pairs[ks][1] = pairs[ks][0]
+        ctx.label('map objects shared between entries of the stack: ' + share)
+        stack = pairs if form == 'pairs-lists' else tuple(tuple(p) for p in pairs)
     sshape = np.asarray(stack).shape
     nz = int(np.sum(d == 0))
     mixed_zero = any(0 < int(np.sum(d[k] == 0)) < d[k].size for k in range(L))
@@ -789,10 +853,266 @@ def check_batch_large(case, ctx):
                  '%d of %d elements: R + T - 1 = %.3g at flat index %d (first), max |.| %.3g, tol %.3g; %s' % (int(bad.sum()), N, float(e.reshape(N)[k]), k, float(np.nanmax(np.abs(e))), tole, desc))
 
 
+# ---- frustrated total internal reflection: evanescent film layers, propagating exit medium ----------------
+# The transverse index s = n0 sin(aoi) lies strictly between 1 and n0 (an immersed / prism-coupled stack at oblique incidence).  A film layer
+# is *evanescent* when its index is in [1, s) - the wave decays through it like exp(-x), x = 2 pi d sqrt(s^2 - n^2) / lambda - and *propagating*
+# when its index exceeds s.  The exit medium always propagates, so the incidence is below total internal reflection for the stack as a whole:
+# light tunnels through the thin evanescent layers, T > 0, and every sentence of the property applies (lossless => R + T = 1 with the
+# admittance factor of the exit medium alone; a zero-thickness layer of ANY index >= 1 changes nothing; a half-wave layer of a propagating
+# index is an absentee; a batched map equals the loop).  Everything is constructed from fractions, nothing is rejected.
+EV_MARGIN = 0.999      # an evanescent index stays 1e-3 (s - 1) below s,
+PROP_MARGIN = 1.002    # a propagating one 2e-3 s above it: cos in a propagating layer >= 0.063
+
+
+def _ftir_s(n0, g):
+    return 1.0 + g * (n0 - 1.0)
+
+
+def _ftir_index(kind, u, s):
+    if kind == 'ev':
+        return 1.0 + u * (s - 1.0) * EV_MARGIN       # u == 0: exactly 1.0 (an air gap)
+    return s * (PROP_MARGIN + 2.0 * u)
+
+
+def _ftir_thickness(kind, n, x, s, wvl):
+    """x is the decay exponent of an evanescent layer (amplitude factor exp(-x)), or the thickness of a propagating one in quarter vacuum wavelengths"""
+    if kind == 'ev':
+        return x * wvl / (2.0 * math.pi * math.sqrt(s * s - n * n))
+    return x * wvl / 4.0
+
+
+def _ftir_cos(kind, n, s):
+    """|cos| of the (real or purely imaginary) propagation angle"""
+    return math.sqrt(abs(1.0 - (s / n) ** 2))
+
+
+def _g():
+    return st.one_of(U.nice_float(0.02, 0.98), U.nice_float(0.02, 0.98), U.nice_float(0.3, 0.9), st.sampled_from([0.5, 0.1, 0.9, 0.999, 0.9999]))
+
+
+def _n0_immersed():
+    return st.one_of(U.nice_float(1.05, 2.5), U.nice_float(1.3, 4.0), st.sampled_from([1.5, 1.33, 1.7, 2.25, 1.05, 4.0]))
+
+
+def _u():
+    return st.one_of(U.nice_float(0.0, 1.0), U.nice_float(0.0, 1.0), st.sampled_from([0.0, 0.0, 1.0, 0.5]))
+
+
+def _x():
+    return st.one_of(U.nice_float(0.0, 3.0), U.nice_float(0.0, 3.0), U.nice_float(0.0, 1.0), U.nice_float(0.0, 8.0), st.sampled_from([0.0, 0.0, 1e-9, 0.3, 12.0]))
+
+
+def _ftir_film():
+    return st.fixed_dictionaries({'kind': st.sampled_from(['ev', 'ev', 'prop']), 'u': _u(), 'x': _x()})
+
+
+def strat_ftir(tier):
+    return st.fixed_dictionaries({
+        'n0': _n0_immersed(), 'g': _g(), 'films': st.lists(_ftir_film(), min_size=0, max_size=5),
+        'exit': st.fixed_dictionaries({'u': _u(), 'x': _x()}), 'wvl': U.nice_float(0.3, 2.0), 'pol': POL,
+        'ins': st.fixed_dictionaries({'kind': st.sampled_from(['ev', 'ev', 'prop']), 'u': _u(), 'pos': st.one_of(st.integers(0, 5), st.integers(0, 20)), 'm': st.sampled_from([1, 2, 3, 50])}),
+        'form': st.sampled_from(FORMS), 'wexp': st.sampled_from(WEXP), 'argt': ARGT, 'pre': st.sampled_from(PRE),
+        'periodic': _periodic_spec()})
+
+
+def _ftir_layers(case):
+    """[(kind, index, thickness)] of the films and the exit medium, the transverse index s, the angle of incidence (rad) and the wavelength"""
+    n0, wvl = case['n0'], case['wvl'] * 10.0 ** case.get('wexp', 0)
+    s = _ftir_s(n0, case['g'])
+    out = []
+    for fm in list(case['films']) + [dict(case['exit'], kind='prop')]:
+        n = _ftir_index(fm['kind'], fm['u'], s)
+        out.append((fm['kind'], n, _ftir_thickness(fm['kind'], n, fm['x'], s, wvl)))
+    return out, s, math.asin(s / n0), wvl
+
+
+def check_ftir(case, ctx):
+    """immersed stack beyond the critical angle of some film layers (evanescent), exit medium propagating: R + T = 1; a zero-thickness layer of any index changes nothing; a propagating half-wave layer is an absentee."""
+    n0, pol, form, argt, pre = case['n0'], case['pol'], case['form'], case['argt'], case['pre']
+    kl, s, th0, wvl = _ftir_layers(case)
+    if case.get('periodic') and len(kl) > 1:
+        kl = _periodic(kl, case['periodic'])
+        ctx.label('periodic-film')
+    aoi = math.degrees(th0)
+    layers = [(n, d) for k, n, d in kl]
+    films = kl[:-1]
+    ns = kl[-1][1]
+    n_ev = sum(1 for k, n, d in films if k == 'ev')
+    n_ev_thick = sum(1 for k, n, d in films if k == 'ev' and d > 0)
+    xsum = sum(2.0 * math.pi * d * math.sqrt(s * s - n * n) / wvl for k, n, d in films if k == 'ev')
+    ins = case['ins']
+    nn = _ftir_index(ins['kind'], ins['u'], s)
+    pos = ins['pos'] % len(layers)
+    ctx.nt(n_ev_thick > 0 or ins['kind'] == 'ev')
+    ctx.label('evanescent-layers=%s' % (n_ev if n_ev < 3 else '3+'), 'pol:' + pol, 'form:' + form, 'pre:' + pre, 'call:' + argt['call'],
+              'wexp:%s' % ('0' if case.get('wexp', 0) == 0 else 'extreme'), 'inserted:' + ins['kind'],
+              'total decay exponent: %s' % ('0' if xsum == 0 else '<1' if xsum < 1 else '1..4' if xsum < 4 else '4..10' if xsum < 10 else '>=10'),
+              'L=%d' % len(layers))
+    if n_ev == 0 and ins['kind'] == 'ev':
+        ctx.label('no evanescent layer in the stack, the inserted zero-thickness layer is one')
+    if any(a[0] == 'ev' and b[0] == 'ev' for a, b in zip(films, films[1:])):
+        ctx.label('two evanescent layers in a row')
+    if films and films[0][0] == 'ev':
+        ctx.label('evanescent layer next to the ambient')
+    if films and films[-1][0] == 'ev':
+        ctx.label('evanescent layer next to the exit medium')
+    if any(k == 'ev' and n == 1.0 for k, n, d in films):
+        ctx.label('air gap (index exactly 1)')
+    if any(k == 'prop' and n < n0 for k, n, d in kl):
+        ctx.label('propagating layer rarer than the ambient')
+    base = _build(layers, form, 'float')
+    desc = 'stack %r (%s) wvl=%r pol=%s aoi=%r deg n0=%r (n0 sin aoi = %r; layer kinds %s)' % (layers, form, wvl, pol, aoi, n0, s, [k for k, n, d in kl])
+    _prior(ctx, pre, base, wvl, pol, aoi, n0)
+    r0, t0 = _twice(ctx, base, wvl, pol, aoi, n0, argt, desc)
+    r0 = _scalar(ctx, r0, 'stack_rt:nonfinite:evanescent-layer', 'r')
+    t0 = _scalar(ctx, t0, 'stack_rt:nonfinite:evanescent-layer', 't')
+    R, T = _RT(r0, t0, n0, th0, ns)
+    ctx.label('T: %s' % ('>0.1' if T > 0.1 else '1e-3..0.1' if T > 1e-3 else '1e-6..1e-3' if T > 1e-6 else '<1e-6'))
+    cmin = min([math.cos(th0)] + [_ftir_cos(k, n, s) for k, n, d in kl] + [_ftir_cos(ins['kind'], nn, s)])
+    tol = _energy_tol(cmin)     # observed on correct code (8e4 stacks, decay exponents to 50): |R+T-1| <= 3.5e-15/cmin^2 and <= 1.4e-13/cmin
+    ev = ':evanescent-layer' if n_ev_thick else ''
+    ctx.require(abs(R + T - 1) <= tol, 'energy:%s:lossless%s' % (pol, ev), '%s: R=%.17g T=%.17g R+T-1=%.3g (tol %.3g)' % (desc, R, T, R + T - 1, tol))
+    # a zero-thickness layer of an evanescent or a propagating index, in front of any layer
+    z = _build(layers[:pos] + [(nn, 0.0)] + layers[pos:], form, 'float')
+    r1, t1 = _call_rt(ctx, z, wvl, pol, aoi, n0, argt)
+    r1 = _scalar(ctx, r1, 'stack_rt:nonfinite:evanescent-layer', 'r')
+    t1 = _scalar(ctx, t1, 'stack_rt:nonfinite:evanescent-layer', 't')
+    zk = ':evanescent-index' if ins['kind'] == 'ev' else ev
+    ctx.require(abs(r1 - r0) <= tol * max(1, abs(r0)) and abs(t1 - t0) <= tol * max(1, abs(t0)), 'zero-thickness:%s%s' % (pol, zk),
+                '%s + layer n=%r (%s) d=0 before #%d: r %r -> %r, t %r -> %r' % (desc, nn, ins['kind'], pos, r0, r1, t0, t1))
+    # half-wave absentee (propagating index only: n d cos th = m lambda / 2 has no solution in an evanescent layer)
+    if ins['kind'] == 'prop':
+        m = ins['m']
+        dh = m * wvl / (2 * nn * _cos_in(n0, th0, nn))
+        h = _build(layers[:pos] + [(nn, dh)] + layers[pos:], form, 'float')
+        r2, t2 = _call_rt(ctx, h, wvl, pol, aoi, n0, argt)
+        R2, T2 = _RT(_scalar(ctx, r2, 'stack_rt:nonfinite:evanescent-layer', 'r'), _scalar(ctx, t2, 'stack_rt:nonfinite:evanescent-layer', 't'), n0, th0, ns)
+        tolh = 1e-9 / cmin ** 2 * m
+        ctx.require(abs(R2 - R) <= tolh and abs(T2 - T) <= tolh, 'absentee:%s%s' % (pol, ev),
+                    '%s: half-wave layer n=%r d=%r (m=%d) before #%d changes R %.17g -> %.17g, T %.17g -> %.17g' % (desc, nn, dh, m, pos, R, R2, T, T2))
+    r3, t3 = _call_rt(ctx, base, wvl, pol, aoi, n0, argt)
+    ctx.require(abs(complex(r3) - r0) <= 1e-12 * max(1, abs(r0)) and abs(complex(t3) - t0) <= 1e-12 * max(1, abs(t0)), 'stack_rt:not-repeatable',
+                '%s: the base stack evaluated again gives r %r -> %r, t %r -> %r' % (desc, r0, r3, t0, t3))
+
+
+def strat_ftir_batch(tier):
+    mx = 4 if tier == 'quick' else 6
+    bshape = st.one_of(st.lists(st.integers(1, mx), min_size=1, max_size=1), st.lists(st.integers(1, mx), min_size=2, max_size=3),
+                       st.lists(st.integers(2, mx), min_size=2, max_size=2))
+    big = st.sampled_from([[2 ** 15 + 3], [3, 10923], [2 ** 15 + 3], [2 ** 16 + 1]] if tier == 'quick' else [[2 ** 15 + 3], [3, 10923], [2 ** 16 + 1], [7, 1, 9363], [2 ** 17 + 5]])
+    return st.fixed_dictionaries({
+        'L': st.integers(2, 5), 'bshape': st.one_of(*([bshape] * 14 + [big])), 'seed': U.seeds, 'wvl': U.nice_float(0.3, 2.0), 'n0': _n0_immersed(), 'g': _g(), 'pol': POL,
+        'evfrac': st.sampled_from([0.5, 0.5, 0.2, 0.8, 1.0, 0.0]), 'xmax': st.sampled_from([3.0, 3.0, 1.0, 8.0]),
+        'vary': st.sampled_from(['both', 'both', 'thickness', 'index']), 'special': st.sampled_from(['none', 'zeros', 'zero-layer', 'one-zero', 'air']),
+        'form': st.sampled_from(BFORMS), 'wexp': st.sampled_from(WEXP), 'argt': ARGT, 'order': st.sampled_from(['batch-first', 'batch-first', 'loop-first'])})
+
+
+def check_ftir_batch(case, ctx):
+    """a batched immersed stack in which some elements hold evanescent film layers and others do not == the per-element loop; R + T = 1 on every element."""
+    from prysm import thinfilm as tf
+    L, B, n0, pol, form, argt = case['L'], tuple(case['bshape']), case['n0'], case['pol'], case['form'], case['argt']
+    wvl = case['wvl'] * 10.0 ** case.get('wexp', 0)
+    N = int(np.prod(B))
+    s = _ftir_s(n0, case['g'])
+    th0 = math.asin(s / n0)
+    aoi = math.degrees(th0)
+    rng = U.rng_of(case['seed'], 31)
+    film = (np.arange(L) < L - 1).reshape((L,) + (1,) * len(B))
+    evm = (rng.uniform(0, 1, (L,) + B) < case['evfrac']) & film
+    u = rng.uniform(0, 1, (L,) + B)
+    x = rng.uniform(0, 1, (L,) + B) * case['xmax']
+    if case['vary'] == 'thickness':     # one index (and one kind) per layer, thickness maps
+        first = (slice(None),) + (0,) * len(B)
+        evm = np.broadcast_to(evm[first].reshape((L,) + (1,) * len(B)), (L,) + B).copy()
+        u = np.broadcast_to(u[first].reshape((L,) + (1,) * len(B)), (L,) + B).copy()
+    if case['vary'] == 'index':
+        first = (slice(None),) + (0,) * len(B)
+        x = np.broadcast_to(x[first].reshape((L,) + (1,) * len(B)), (L,) + B).copy()
+    sp = case['special']
+    v = rng.uniform(0, 1, (L,) + B)
+    if sp == 'zeros':
+        x[v < 0.3] = 0.0
+    elif sp == 'zero-layer':
+        x[int(rng.integers(0, L))] = 0.0
+    elif sp == 'one-zero':
+        x[np.unravel_index(int(np.argmin(v)), v.shape)] = 0.0
+    elif sp == 'air':
+        u[evm & (v < 0.5)] = 0.0
+    n = np.where(evm, 1.0 + u * (s - 1.0) * EV_MARGIN, s * (PROP_MARGIN + 2.0 * u))
+    d = np.where(evm, x * wvl / (2.0 * math.pi * np.sqrt(np.where(evm, s * s - n * n, 1.0))), x * wvl / 4.0)
+    if form.startswith('array'):
+        stack = U.relayout(np.stack([n, d], axis=1), {'array': 'C', 'array-F': 'F', 'array-strided': 'strided'}[form])
+    elif form == 'pairs-lists':
+        stack = [[n[k].copy(), d[k].copy()] for k in range(L)]
+    else:
+        stack = tuple((n[k].copy(), d[k].copy()) for k in range(L))
+    anyev = evm.reshape(L, N).any(axis=0)
+    big = N > 2 ** 15
+    ctx.nt(bool(anyev.any()))
+    ctx.label('ndim=%d' % len(B), 'L=%d' % L, 'pol:' + pol, 'form:' + form, 'vary:' + case['vary'], 'special:' + sp, 'call:' + argt['call'],
+              'elements with an evanescent layer: %s' % ('none' if not anyev.any() else 'all' if anyev.all() else 'some'),
+              'more than 2^15 elements' if big else 'small map', 'wexp:%s' % ('0' if case.get('wexp', 0) == 0 else 'extreme'), 'order:' + case['order'])
+    desc = 'stack shape %s (%s) aoi=%r n0=%r (n0 sin aoi = %r) wvl=%r pol=%s, %d of %d elements hold an evanescent layer' % (
+        np.asarray(stack).shape, form, aoi, n0, s, wvl, pol, int(anyev.sum()), N)
+    if big:
+        pick = sorted({0, 1, N - 2, N - 1, 2 ** 15 - 1, 2 ** 15, 2 ** 15 + 1} | set(range(case['seed'] % (N // 16), N, N // 16)))
+        pick = [k for k in pick if 0 <= k < N]
+    else:
+        pick = list(range(N))
+    nf, df = n.reshape(L, N), d.reshape(L, N)
+    rl, tl = np.empty(len(pick), complex), np.empty(len(pick), complex)
+
+    def loop():
+        for j, k in enumerate(pick):
+            one = [(float(nf[i, k]), float(df[i, k])) for i in range(L)]
+            a, b = ctx.call(tf.multilayer_stack_rt, one, wvl, pol, aoi, n0)
+            rl[j], tl[j] = complex(a), complex(b)
+    if case['order'] == 'loop-first':
+        loop()
+    if big:
+        snap = np.array(stack, copy=True) if form.startswith('array') else _snapshot(stack)
+        r, t = _call_rt(ctx, stack, wvl, pol, aoi, n0, argt)
+        same = np.array_equal(np.asarray(stack), snap) if form.startswith('array') else _same(_snapshot(stack), snap)
+        ctx.require(same, 'stack_rt:argument-modified', 'the stack was modified by the call (%s)' % desc)
+    else:
+        r, t = _twice(ctx, stack, wvl, pol, aoi, n0, argt, desc)
+    U.check_shape(r, B, 'batch:r')
+    U.check_shape(t, B, 'batch:t')
+    r, t = np.asarray(r), np.asarray(t)
+    if case['order'] != 'loop-first':
+        loop()
+    ctx.require(bool(np.all(np.isfinite(r))) and bool(np.all(np.isfinite(t))), 'batch:nonfinite:evanescent-layer',
+                '%d of %d elements of r / t are not finite (%s)' % (int(np.sum(~(np.isfinite(r) & np.isfinite(t)))), N, desc))
+    rt_ = 1e-11
+    # t of an element is compared on its own scale (tunnelling makes |t| differ by orders of magnitude between elements)
+    rb, tb = r.reshape(N)[pick], t.reshape(N)[pick]
+    bad = ~((np.abs(rb - rl) <= rt_ * np.maximum(1.0, np.abs(rl))) & (np.abs(tb - tl) <= rt_ * np.abs(tl) + 1e-300))
+    if bad.any():
+        j = int(np.flatnonzero(bad)[0])
+        ctx.fail('batch:%s:%s' % (pol, 'evanescent-layer' if anyev[pick[j]] else 'beside-evanescent-elements'),
+                 '%d of %d compared elements differ from the loop; flat index %d (layers %r): batched r=%r t=%r, loop r=%r t=%r; %s' % (
+                     int(bad.sum()), len(pick), pick[j], [(float(nf[i, pick[j]]), float(df[i, pick[j]])) for i in range(L)], rb[j], tb[j], rl[j], tl[j], desc))
+    # energy on every element (harness arithmetic; the admittance factor of the exit medium only)
+    ns = n[-1]
+    Rb = np.abs(r) ** 2
+    Tb = np.abs(t) ** 2 * ns * np.sqrt(1.0 - (s / ns) ** 2) / (n0 * math.cos(th0))
+    cmin = min(math.cos(th0), float(np.sqrt(np.abs(1.0 - (s / n) ** 2)).min()))
+    tole = _energy_tol(cmin)
+    e = (Rb + Tb - 1).reshape(N)
+    bad = ~(np.abs(e) <= tole)
+    if bad.any():
+        k = int(np.flatnonzero(bad)[0])
+        ctx.fail('batch:energy:%s:lossless:%s' % (pol, 'evanescent-layer' if anyev[k] else 'beside-evanescent-elements'),
+                 '%d of %d elements (%d of them with an evanescent layer): R + T - 1 = %.3g at flat index %d (layers %r), tol %.3g; %s' % (
+                     int(bad.sum()), N, int((bad & anyev).sum()), float(e[k]), k, [(float(nf[i, k]), float(df[i, k])) for i in range(L)], tole, desc))
+
+
 CLAUSES = [
     HypClause('energy', strat_energy, check_energy, examples={'quick': 1500, 'thorough': 8000}, shards={'quick': 2, 'thorough': 8}),
     HypClause('fresnel', strat_fresnel, check_fresnel, examples={'quick': 1200, 'thorough': 6000}, shards={'quick': 2, 'thorough': 8}),
     HypClause('absentee', strat_absentee, check_absentee, examples={'quick': 1000, 'thorough': 5000}, shards={'quick': 2, 'thorough': 8}),
     HypClause('batch', strat_batch, check_batch, examples={'quick': 400, 'thorough': 1500}, shards={'quick': 2, 'thorough': 8}),
     HypClause('batch_large', strat_batch_large, check_batch_large, examples={'quick': 40, 'thorough': 300}, shards={'quick': 4, 'thorough': 10}),
+    HypClause('frustrated_tir', strat_ftir, check_ftir, examples={'quick': 1000, 'thorough': 5000}, shards={'quick': 2, 'thorough': 8}),
+    HypClause('frustrated_tir_batch', strat_ftir_batch, check_ftir_batch, examples={'quick': 300, 'thorough': 1500}, shards={'quick': 2, 'thorough': 8}),
 ]
